@@ -3,6 +3,8 @@ import CTV.Lemmas.DerSig
 import CTV.Lemmas.SigInput
 import CTV.Lemmas.SigVerify
 import CTV.Lemmas.SigScheme
+import CTV.Lemmas.SigInputRfc
+import CTV.Props.C04
 /-!
 # C05 — signature verification accepts exactly the valid log signatures
 
@@ -26,7 +28,7 @@ the tree as found — the C05 finding, fixed by 1a2a72f — and is `true` now: s
 unfolds the flag, so it holds for both trees.  The length bound is the fork's "length too large" rule. -/
 theorem verify_iff (P : Prims) (key : Key) (data : Bytes) (ds : DigitallySigned) :
     verifySignature P key data ds = .ok ↔
-      ∃ h, rfcHash ds.hash = some h ∧ key.isNil = false ∧
+      ∃ h, rfcHash ds.hash = some h ∧ key.primPanics = false ∧
         ((ds.sigAlg = 1 ∧ key.kind = .rsa ∧ P.prim key h (P.digest h data) (.raw ds.sig) = true) ∨
          ((ds.sigAlg = 2 ∧ key.kind = .dsa ∨ ds.sigAlg = 3 ∧ key.kind = .ecdsa) ∧
             ∃ r s extra rest, ds.sig = derSigX r s extra ++ rest ∧
@@ -43,7 +45,7 @@ theorem verify_iff (P : Prims) (key : Key) (data : Bytes) (ds : DigitallySigned)
     · -- RSA
       simp only [h1, if_true, ne_eq, name_rsa, Bool.not_false]
       by_cases hk : key.kind = .rsa
-      · by_cases hn : key.isNil = true
+      · by_cases hn : key.primPanics = true
         · simp [hk, hn]
         · by_cases hp : P.prim key h (P.digest h data) (.raw ds.sig) = true <;> simp [hk, hn, hp]
       · simp [hk]
@@ -117,7 +119,7 @@ passes iff hash ∈ RFC 5246's six ∧ the algorithm is the key's ∧ ((RSA ∧ 
 sig = der(r, s) ++ rest ∧ r > 0 ∧ s > 0 ∧ prim on (r, s))). -/
 theorem verify_iff_canonical (P : Prims) (key : Key) (data : Bytes) (ds : DigitallySigned) :
     verifySignature P key data ds = .ok ↔
-      ∃ h, rfcHash ds.hash = some h ∧ key.isNil = false ∧
+      ∃ h, rfcHash ds.hash = some h ∧ key.primPanics = false ∧
         ((ds.sigAlg = 1 ∧ key.kind = .rsa ∧ P.prim key h (P.digest h data) (.raw ds.sig) = true) ∨
          ((ds.sigAlg = 2 ∧ key.kind = .dsa ∨ ds.sigAlg = 3 ∧ key.kind = .ecdsa) ∧
             ∃ r s rest, ds.sig = derSig r s ++ rest ∧ (derInt r ++ derInt s).length < 2^31 ∧
@@ -183,18 +185,33 @@ theorem unsupported_hash_is_error (P : Prims) (key : Key) (data : Bytes) (ds : D
 
 example : (255 : Nat) = 0 ∨ 7 ≤ (255 : Nat) := by decide
 
-/-- **verifier_policy.** `NewSignatureVerifier` hands out a verifier exactly for RSA keys of at least 2048 bits and
-ECDSA keys on P-256, or for any RSA/ECDSA key once `AllowVerificationWithNonCompliantKeys` is set; never for another
-key type (DSA, Ed25519, anything else), opted in or not.  Over the regenerated `Gen.newVerifier`. -/
+/-- **verifier_policy.** For a key on which it returns, `NewSignatureVerifier` hands out a verifier exactly for RSA keys of
+at least 2048 bits and ECDSA keys on P-256, or for any RSA/ECDSA key once `AllowVerificationWithNonCompliantKeys` is
+set; never for another key type (DSA, Ed25519, anything else), opted in or not.  Over the regenerated
+`Gen.newVerifier` / `Gen.newVerifierKinds`. -/
 theorem verifier_policy (key : Key) (allow : Bool) :
     newVerifier key allow = true ↔
       (key.kind = .rsa ∧ (2048 ≤ key.bits ∨ allow = true)) ∨ (key.kind = .ecdsa ∧ (key.isP256 = true ∨ allow = true)) := by
   unfold newVerifier Gen.newVerifier Gen.newVerifier_rsa Gen.newVerifier_ecdsa
-  cases hk : key.kind <;> cases allow <;> cases hp : key.isP256 <;> simp [KeyKind.name] <;> omega
+  cases hk : key.kind <;> cases allow <;> cases hp : key.isP256 <;> simp [KeyKind.name, Gen.newVerifierKinds] <;> omega
+
+/-- **verifier_policy, all keys.** The constructor's three outcomes: it panics exactly on a nil or zero-valued RSA/ECDSA
+key pointer (`pkType.N.BitLen()`, `pkType.Params()` — degenerate keys the property does not speak about), returns a
+verifier exactly under the policy above, and returns an error otherwise. -/
+theorem verifier_policy_outcome (key : Key) (allow : Bool) :
+    (newVerifierOutcome key allow = .panic ↔ key.ctorPanics = true) ∧
+    (newVerifierOutcome key allow = .ok ↔ key.ctorPanics = false ∧
+      ((key.kind = .rsa ∧ (2048 ≤ key.bits ∨ allow = true)) ∨ (key.kind = .ecdsa ∧ (key.isP256 = true ∨ allow = true)))) := by
+  unfold newVerifierOutcome
+  rw [← verifier_policy]
+  cases hc : key.ctorPanics <;> cases hv : newVerifier key allow <;> simp
 
 example : newVerifier { kind := .rsa, bits := 2047 } false = false ∧ newVerifier { kind := .rsa, bits := 2048 } false = true ∧
     newVerifier { kind := .ecdsa, isP256 := false } false = false ∧ newVerifier { kind := .ecdsa, isP256 := false } true = true ∧
     newVerifier { kind := .dsa } true = false ∧ newVerifier { kind := .ed25519 } true = false := by decide
+example : newVerifierOutcome { kind := .rsa, isNil := true } true = .panic ∧ newVerifierOutcome { kind := .ecdsa, hollow := true } false = .panic ∧
+    newVerifierOutcome { kind := .dsa, hollow := true } true = .err ∧ newVerifierOutcome { kind := .rsa, bits := 4096 } false = .ok := by decide
+example := (verifier_policy { kind := .rsa, bits := 2048 } false).mpr (Or.inl ⟨rfl, Or.inl (by decide)⟩)
 
 /-- **signed_bytes_exact (SCT).** When `VerifySCTSignature` passes, the message handed to `VerifySignature` is RFC 6962
 §3.2's signature input of exactly this version, timestamp, entry and extensions — and those bytes are the signature
@@ -203,7 +220,7 @@ theorem signed_bytes_exact_sct (P : Prims) (key : Key) (sct : SCT) (e : Entry) (
     ∃ msg, sctSigInput sct.version sct.timestamp e sct.extensions = some msg ∧
       verifySignature P key msg sct.sig = .ok ∧
       ∀ v' t' e' x', sctSigInput v' t' e' x' = some msg → v' = sct.version ∧ t' = sct.timestamp ∧ e' = e ∧ x' = sct.extensions := by
-  unfold verifySCT at h
+  rw [verifySCT_def] at h
   cases hm : sctSigInput sct.version sct.timestamp e sct.extensions with
   | none => simp [hm] at h
   | some msg =>
@@ -218,7 +235,7 @@ theorem signed_bytes_exact_sth (P : Prims) (key : Key) (sth : STH) (h : verifyST
     ∃ msg, sthSigInput sth.version sth.timestamp sth.treeSize sth.root = some msg ∧
       verifySignature P key msg sth.sig = .ok ∧
       ∀ v' t' n' r', sthSigInput v' t' n' r' = some msg → v' = sth.version ∧ t' = sth.timestamp ∧ n' = sth.treeSize ∧ r' = sth.root := by
-  unfold verifySTH at h
+  rw [verifySTH_def] at h
   cases hm : sthSigInput sth.version sth.timestamp sth.treeSize sth.root with
   | none => simp [hm] at h
   | some msg =>
@@ -279,13 +296,291 @@ theorem signedJSON_verifies_first {α : Type} (P : Prims) (parse : Bytes → Opt
 example : newFromSignedJSON ⟨fun _ m => m, fun _ _ _ _ => true⟩ (fun d => some d.length) { kind := .ecdsa } [1, 2] [0x30, 6, 2, 1, 1, 2, 1, 1] = .ok 2 := by decide
 example : newFromSignedJSON ⟨fun _ m => m, fun _ _ _ _ => true⟩ (fun d => some d.length) { kind := .dsa } [1, 2] [0x30, 6, 2, 1, 1, 2, 1, 1] = .err := by decide
 
+/-! ### the signed bytes are the layout the code's struct tags prescribe
+
+`CTV.SigInput` is written from the RFC text.  `Lemmas/SigInputRfc.lean` proves it equal to the transcription
+`Rfc.sctSigInputV1` / `Rfc.sthSigInputV1` of `CTV/Rfc6962/Wire.lean`, and C04 (`sctSigInput_spec`, `sthSigInput_spec`)
+proves that transcription equal to `tls.Marshal` of `CertificateTimestamp` / `TreeHeadSignature` under the **regenerated**
+struct tags (`Gen.ct_*`) inside the modelled `SerializeSCT/STHSignatureInput`.  So the injectivity theorems above are about
+the bytes the repository's tags produce, not only about the RFC layout. -/
+
+theorem sct_input_is_code_layout (v : Nat) (t : UInt64) (e : Entry) (x : Bytes) (re : Rfc.SignedEntry) (h : toRfcEntry e = some re) :
+    sctSigInput v t e x = CtWire.eo (CtWire.serializeSCTSignatureInput (C04.sctIn ⟨v, t.toNat, re, x⟩)) := by
+  rw [sctSigInput_eq_rfc, h, C04.sctSigInput_spec]
+
+theorem sth_input_is_code_layout (v : Nat) (t n : UInt64) (r : Bytes) :
+    sthSigInput v t n r = CtWire.eo (CtWire.serializeSTHSignatureInput ⟨v, t.toNat, n.toNat, r⟩) := by
+  rw [sthSigInput_eq_rfc]
+  exact (C04.sthSigInput_spec ⟨v, t.toNat, n.toNat, r⟩).symm
+
+example : toRfcEntry (.x509 [1]) = some (.x509 [1]) ∧ toRfcEntry (.precert [2] [3]) = some (.precert ⟨[2], [3]⟩) := ⟨rfl, rfl⟩
+
+/-! ### "iff": the wrappers in both directions -/
+
+/-- `VerifySCTSignature` passes **iff** the signed input exists (v1, a known entry type, lengths in range) and
+`VerifySignature` passes over exactly those bytes. -/
+theorem verifySCT_iff (P : Prims) (key : Key) (sct : SCT) (e : Entry) :
+    verifySCT P key sct e = .ok ↔
+      ∃ msg, sctSigInput sct.version sct.timestamp e sct.extensions = some msg ∧ verifySignature P key msg sct.sig = .ok := by
+  rw [verifySCT_def]
+  cases sctSigInput sct.version sct.timestamp e sct.extensions <;> simp
+
+theorem verifySTH_iff (P : Prims) (key : Key) (sth : STH) :
+    verifySTH P key sth = .ok ↔
+      ∃ msg, sthSigInput sth.version sth.timestamp sth.treeSize sth.root = some msg ∧ verifySignature P key msg sth.sig = .ok := by
+  rw [verifySTH_def]
+  cases sthSigInput sth.version sth.timestamp sth.treeSize sth.root <;> simp
+
+/-- **signedJSON, both directions.** `NewFromSignedJSON` returns `v` **iff** the key is RSA or ECDSA, `VerifySignature`
+passes over the whole document with SHA-256 and that key type's algorithm, and the document parses to `v`. -/
+theorem signedJSON_iff {α : Type} (P : Prims) (parse : Bytes → Option α) (key : Key) (doc sig : Bytes) (v : α) :
+    newFromSignedJSON P parse key doc sig = .ok v ↔
+      (key.kind = .rsa ∨ key.kind = .ecdsa) ∧
+      verifySignature P key doc ⟨4, if key.kind = .rsa then 1 else 3, sig⟩ = .ok ∧ parse doc = some v := by
+  constructor
+  · exact signedJSON_verifies_first P parse key doc sig v
+  · rintro ⟨hk, hv, hp⟩
+    unfold newFromSignedJSON
+    have hH : Gen.signedJSONHash = 4 := rfl
+    have hF : Gen.signedJSONVerifiesBeforeParse = true := rfl
+    rcases hk with hk | hk <;> simp [hk, KeyKind.name, Gen.signedJSONAlg, List.lookup, hH, hF] at hv ⊢ <;> simp [hv, hp]
+
+/-- witnesses: an SCT over an X.509 entry, an SCT over a precertificate entry and an STH that verify (primitive accepting (1, 1)) -/
+example : verifySCT ⟨fun _ m => m, fun _ _ _ v => v == .pair 1 1⟩ { kind := .ecdsa } ⟨0, [], 5, [9], ⟨4, 3, [0x30, 6, 2, 1, 1, 2, 1, 1]⟩⟩ (.x509 [0xaa]) = .ok := by decide
+example : verifySCT ⟨fun _ m => m, fun _ _ _ v => v == .pair 1 1⟩ { kind := .ecdsa } ⟨0, [], 5, [], ⟨4, 3, [0x30, 6, 2, 1, 1, 2, 1, 1]⟩⟩
+    (.precert (List.replicate 32 7) [0xbb]) = .ok := by decide
+example : verifySTH ⟨fun _ m => m, fun _ _ _ v => v == .pair 1 1⟩ { kind := .ecdsa } ⟨0, 10, 20, List.replicate 32 1, ⟨4, 3, [0x30, 6, 2, 1, 1, 2, 1, 1]⟩⟩ = .ok := by decide
+/-- `signed_bytes_exact_sct` applied to the first witness -/
+example := signed_bytes_exact_sct ⟨fun _ m => m, fun _ _ _ v => v == .pair 1 1⟩ { kind := .ecdsa } ⟨0, [], 5, [9], ⟨4, 3, [0x30, 6, 2, 1, 1, 2, 1, 1]⟩⟩ (.x509 [0xaa]) (by decide)
+example := signed_bytes_exact_sth ⟨fun _ m => m, fun _ _ _ v => v == .pair 1 1⟩ { kind := .ecdsa } ⟨0, 10, 20, List.replicate 32 1, ⟨4, 3, [0x30, 6, 2, 1, 1, 2, 1, 1]⟩⟩ (by decide)
+example := unsupported_hash_is_error ⟨fun _ m => m, fun _ _ _ _ => true⟩ { kind := .ecdsa } [1] ⟨255, 3, [0x30, 6, 2, 1, 1, 2, 1, 1]⟩ (Or.inr (by decide))
+example := mismatch_is_error ⟨fun _ m => m, fun _ _ _ _ => true⟩ { kind := .rsa, isNil := true } [1] ⟨4, 3, [0x30, 6, 2, 1, 1, 2, 1, 1]⟩ (by decide)
+
+/-! ### clause 2 at the level of the outcome: what changing a field, the key or an algorithm does to the verdict
+
+Unforgeability is not claimed (the primitives are a parameter), so "fails" can be stated unconditionally only where the
+control structure decides; everywhere else the statement is the reduction "a second acceptance would be an acceptance
+by the primitive of a *different* message / digest / value". -/
+
+/-- changing the signature-algorithm identifier of an accepted DigitallySigned makes verification fail — whatever the new
+code and whatever the signature octets are changed to. -/
+theorem alg_change_fails (P : Prims) (key : Key) (data : Bytes) (h a a' h' : Nat) (sig sig' : Bytes)
+    (hok : verifySignature P key data ⟨h, a, sig⟩ = .ok) (hne : a' ≠ a) :
+    verifySignature P key data ⟨h', a', sig'⟩ = .err := by
+  apply mismatch_is_error
+  obtain ⟨_, _, _, hor⟩ := (verify_iff P key data ⟨h, a, sig⟩).mp hok
+  simp only at hor hne ⊢
+  rcases hor with ⟨h1, hk, _⟩ | ⟨hk | hk, _⟩
+  · subst h1; rw [hk]
+    rcases a' with _|_|_|_|a' <;> simp [algKind] at hne ⊢
+  · obtain ⟨h2, hk⟩ := hk; subst h2; rw [hk]
+    rcases a' with _|_|_|_|a' <;> simp [algKind] at hne ⊢
+  · obtain ⟨h3, hk⟩ := hk; subst h3; rw [hk]
+    rcases a' with _|_|_|_|a' <;> simp [algKind] at hne ⊢
+
+/-- replacing the key by one of another type makes verification of an accepted DigitallySigned fail -/
+theorem key_kind_change_fails (P : Prims) (key key' : Key) (data data' : Bytes) (ds : DigitallySigned)
+    (hok : verifySignature P key data ds = .ok) (hne : key'.kind ≠ key.kind) :
+    verifySignature P key' data' ds = .err := by
+  apply mismatch_is_error
+  obtain ⟨_, _, _, hor⟩ := (verify_iff P key data ds).mp hok
+  rcases hor with ⟨h1, hk, _⟩ | ⟨hk | hk, _⟩
+  · rw [h1]; simp only [algKind, ne_eq, Option.some.injEq]; rw [← hk]; exact fun e => hne e.symm
+  · rw [hk.1]; simp only [algKind, ne_eq, Option.some.injEq]; rw [← hk.2]; exact fun e => hne e.symm
+  · rw [hk.1]; simp only [algKind, ne_eq, Option.some.injEq]; rw [← hk.2]; exact fun e => hne e.symm
+
+/-- an (EC)DSA signature value that is not a canonical `SEQUENCE{r, s}` followed by anything — corrupted lengths, tags,
+padding, truncation, octets inserted after `s` — fails whatever the primitive would say. -/
+theorem corrupted_der_fails (P : Prims) (key : Key) (data : Bytes) (ds : DigitallySigned) (ha : ds.sigAlg = 2 ∨ ds.sigAlg = 3)
+    (hbad : ∀ r s rest, ds.sig ≠ derSig r s ++ rest) (hn : key.primPanics = false) :
+    verifySignature P key data ds = .err := by
+  cases hv : verifySignature P key data ds with
+  | err => rfl
+  | panic => exact absurd hv (verifySignature_no_panic P key data ds hn)
+  | ok =>
+    obtain ⟨_, r, s, rest, _, e, _⟩ := accepted_pair_is_exact P key data ds ha hv
+    exact absurd e (hbad r s rest)
+
+/-- the unconditional refusals of `VerifySCTSignature`: another version, an unknown entry type, an over-long extensions
+field, an empty or over-long certificate — before any signature is looked at. -/
+theorem verifySCT_refuses (P : Prims) (key : Key) (sct : SCT) (e : Entry)
+    (h : sct.version ≠ 0 ∨ (∃ n, e = .other n) ∨ sct.extensions.length > 65535 ∨
+         (∃ c, e = .x509 c ∧ (c.length = 0 ∨ c.length > 16777215)) ∨
+         (∃ i t, e = .precert i t ∧ (i.length ≠ 32 ∨ t.length = 0 ∨ t.length > 16777215))) :
+    verifySCT P key sct e = .err := by
+  rw [verifySCT_def]
+  have : sctSigInput sct.version sct.timestamp e sct.extensions = none := by
+    unfold sctSigInput
+    rcases h with h | ⟨n, rfl⟩ | h | ⟨c, rfl, h⟩ | ⟨i, t, rfl, h⟩
+    · simp [h]
+    · by_cases hv : sct.version ≠ 0 <;> simp [hv, signedEntry]
+    · by_cases hv : sct.version ≠ 0
+      · simp [hv]
+      · have : opaqueVec 2 0 65535 sct.extensions = none := by simp [opaqueVec]; omega
+        simp only [hv, if_false, this]
+        cases signedEntry e <;> rfl
+    · by_cases hv : sct.version ≠ 0
+      · simp [hv]
+      · have : opaqueVec 3 1 16777215 c = none := by simp [opaqueVec]; omega
+        simp [hv, signedEntry, this]
+    · by_cases hv : sct.version ≠ 0
+      · simp [hv]
+      · by_cases hi : i.length ≠ 32
+        · simp [hv, signedEntry, hi]
+        · have : opaqueVec 3 1 16777215 t = none := by simp [opaqueVec]; omega
+          simp [hv, signedEntry, hi, this]
+  rw [this]
+
+theorem verifySTH_refuses (P : Prims) (key : Key) (sth : STH) (h : sth.version ≠ 0 ∨ sth.root.length ≠ 32) :
+    verifySTH P key sth = .err := by
+  rw [verifySTH_def]
+  have : sthSigInput sth.version sth.timestamp sth.treeSize sth.root = none := by
+    unfold sthSigInput
+    rcases h with h | h
+    · simp [h]
+    · by_cases hv : sth.version ≠ 0 <;> simp [hv, h]
+  rw [this]
+
+/-- **changing a signed field of an SCT.** If an SCT verifies for an entry, and a second (SCT, entry) that differs from it in
+version, timestamp, entry (type, certificate, issuer key hash or TBS) or extensions verifies too, then the primitive
+accepted signatures over two **different** messages.  (So with the same signature value, the primitive accepted one
+value for two different messages — which is what "forged" means; that it cannot happen is the trusted part.) -/
+theorem sct_field_change_needs_second_message (P : Prims) (key : Key) (sct sct' : SCT) (e e' : Entry)
+    (h : verifySCT P key sct e = .ok) (h' : verifySCT P key sct' e' = .ok)
+    (hne : ¬ (sct'.version = sct.version ∧ sct'.timestamp = sct.timestamp ∧ e' = e ∧ sct'.extensions = sct.extensions)) :
+    ∃ m m', m ≠ m' ∧ sctSigInput sct.version sct.timestamp e sct.extensions = some m ∧
+      sctSigInput sct'.version sct'.timestamp e' sct'.extensions = some m' ∧
+      verifySignature P key m sct.sig = .ok ∧ verifySignature P key m' sct'.sig = .ok := by
+  obtain ⟨m, hm, hv, hinj⟩ := signed_bytes_exact_sct P key sct e h
+  obtain ⟨m', hm', hv', _⟩ := signed_bytes_exact_sct P key sct' e' h'
+  refine ⟨m, m', ?_, hm, hm', hv, hv'⟩
+  intro heq
+  subst heq
+  exact hne (hinj _ _ _ _ hm')
+
+theorem sth_field_change_needs_second_message (P : Prims) (key : Key) (sth sth' : STH)
+    (h : verifySTH P key sth = .ok) (h' : verifySTH P key sth' = .ok)
+    (hne : ¬ (sth'.version = sth.version ∧ sth'.timestamp = sth.timestamp ∧ sth'.treeSize = sth.treeSize ∧ sth'.root = sth.root)) :
+    ∃ m m', m ≠ m' ∧ sthSigInput sth.version sth.timestamp sth.treeSize sth.root = some m ∧
+      sthSigInput sth'.version sth'.timestamp sth'.treeSize sth'.root = some m' ∧
+      verifySignature P key m sth.sig = .ok ∧ verifySignature P key m' sth'.sig = .ok := by
+  obtain ⟨m, hm, hv, hinj⟩ := signed_bytes_exact_sth P key sth h
+  obtain ⟨m', hm', hv', _⟩ := signed_bytes_exact_sth P key sth' h'
+  refine ⟨m, m', ?_, hm, hm', hv, hv'⟩
+  intro heq
+  subst heq
+  exact hne (hinj _ _ _ _ hm')
+
+/-- against a primitive that accepts at most one message per (key, hash, signature value) — what an unforgeable scheme
+looks like from the verifier's side — changing any signed field of a verifying SCT, keeping its DigitallySigned, fails.
+(`hinj` also asks the hash function not to collide on the two inputs.) -/
+theorem sct_field_change_fails (P : Prims) (key : Key) (sct sct' : SCT) (e e' : Entry)
+    (hone : ∀ h d d' v, P.prim key h d v = true → P.prim key h d' v = true → d = d')
+    (hinj : ∀ h m m', P.digest h m = P.digest h m' → m = m')
+    (h : verifySCT P key sct e = .ok) (hsig : sct'.sig = sct.sig) (hn : key.primPanics = false)
+    (hne : ¬ (sct'.version = sct.version ∧ sct'.timestamp = sct.timestamp ∧ e' = e ∧ sct'.extensions = sct.extensions)) :
+    verifySCT P key sct' e' = .err := by
+  cases hv' : verifySCT P key sct' e' with
+  | err => rfl
+  | panic => exact absurd hv' (verifySCT_no_panic P key sct' e' hn)
+  | ok =>
+    exfalso
+    obtain ⟨m, m', hmm, _, _, hv, hw⟩ := sct_field_change_needs_second_message P key sct sct' e e' h hv' hne
+    rw [hsig] at hw
+    obtain ⟨hid, hh, _, hor⟩ := (verify_iff P key m sct.sig).mp hv
+    obtain ⟨hid', hh', _, hor'⟩ := (verify_iff P key m' sct.sig).mp hw
+    have : hid' = hid := by rw [hh] at hh'; exact (Option.some.inj hh').symm
+    subst this
+    apply hmm
+    rcases hor with ⟨a1, _, p1⟩ | ⟨hk1, r, s, x, t, e1, hsz1, _, _, _, p1⟩
+    · rcases hor' with ⟨_, _, p2⟩ | ⟨hk2, _⟩
+      · exact hinj _ _ _ (hone _ _ _ _ p1 p2)
+      · rcases hk2 with ⟨h2, _⟩ | ⟨h3, _⟩ <;> omega
+    · rcases hor' with ⟨a1', _, _⟩ | ⟨_, r', s', x', t', e2, hsz2, _, _, _, p2⟩
+      · rcases hk1 with ⟨h2, _⟩ | ⟨h3, _⟩ <;> omega
+      · have hp1 := parseSigPair_complete r s x t hsz1
+        have hp2 := parseSigPair_complete r' s' x' t' hsz2
+        rw [← e1] at hp1; rw [← e2] at hp2
+        rw [hp1] at hp2
+        cases hp2
+        exact hinj _ _ _ (hone _ _ _ _ p1 p2)
+
+/- FULL (clause 2, remaining cases): "changing the hash identifier to another supported one, the key to another key of the
+   same type, or corrupting the signature value to another well-formed value makes verification fail".
+   Not provable and not claimed: by `verify_iff` the verdict in these cases IS the primitive's verdict on the new
+   (key, digest, value) — `P.prim key' h' (P.digest h' data) v'` — and the primitives are trusted, not modelled.
+   What is proved: unsupported hash codes (`unsupported_hash_is_error`), another key *type* (`key_kind_change_fails`),
+   another algorithm code (`alg_change_fails`), structurally corrupted (EC)DSA values (`corrupted_der_fails`), and the
+   reductions `*_field_change_needs_second_message` / `sct_field_change_fails`.  The harness checks the remaining
+   cases against the standard library on every run (classes other-hash, foreign-key, sig-bitflip, msg-bitflip, mut:*). -/
+theorem hash_change_partial (P : Prims) (key : Key) (data : Bytes) (ds : DigitallySigned) (h' : Nat) :
+    verifySignature P key data ⟨h', ds.sigAlg, ds.sig⟩ = .ok →
+      ∃ hid, rfcHash h' = some hid ∧
+        (P.prim key hid (P.digest hid data) (.raw ds.sig) = true ∨ ∃ r s, P.prim key hid (P.digest hid data) (.pair r s) = true) := by
+  intro hok
+  obtain ⟨hid, hh, _, hor⟩ := (verify_iff P key data ⟨h', ds.sigAlg, ds.sig⟩).mp hok
+  refine ⟨hid, hh, ?_⟩
+  rcases hor with ⟨_, _, p⟩ | ⟨_, r, s, _, _, _, _, _, _, _, p⟩
+  · exact Or.inl p
+  · exact Or.inr ⟨r, s, p⟩
+
+example : verifySCT ⟨fun _ m => m, fun _ _ _ _ => true⟩ { kind := .ecdsa } ⟨1, [], 5, [], ⟨4, 3, [0x30, 6, 2, 1, 1, 2, 1, 1]⟩⟩ (.x509 [0xaa]) = .err ∧
+    verifySCT ⟨fun _ m => m, fun _ _ _ _ => true⟩ { kind := .ecdsa } ⟨0, [], 5, [], ⟨4, 3, [0x30, 6, 2, 1, 1, 2, 1, 1]⟩⟩ (.other 2) = .err := by decide
+example := alg_change_fails ⟨fun _ m => m, fun _ _ _ _ => true⟩ { kind := .ecdsa } [7] 4 3 1 4 [0x30, 6, 2, 1, 1, 2, 1, 1] [1] (by decide) (by decide)
+example := key_kind_change_fails ⟨fun _ m => m, fun _ _ _ _ => true⟩ { kind := .ecdsa } { kind := .rsa } [7] [7] ⟨4, 3, [0x30, 6, 2, 1, 1, 2, 1, 1]⟩ (by decide) (by decide)
+
+/-! ### Go arguments the well-formed `Entry` does not cover, and ctutil -/
+
+/-- `VerifySCTSignature` with the nil pointers `SerializeSCTSignatureInput` does not guard: a nil `X509Entry` is an error
+(tls.Marshal: "chosen field is nil"); a nil `PrecertEntry` or a nil `TimestampedEntry` is dereferenced once the version
+switch has accepted v1.  Every caller inside the repository sets these pointers; this is outside the property
+(observation, traced by the harness as `vsctnil`). -/
+theorem verifySCTArg_cases (P : Prims) (key : Key) (sct : SCT) :
+    (∀ e, verifySCTArg P key sct (.entry e) = verifySCT P key sct e) ∧
+    verifySCTArg P key sct .nilX509 = .err ∧
+    (verifySCTArg P key sct .nilPrecert = if sct.version = 0 then .panic else .err) ∧
+    (verifySCTArg P key sct .nilTimestampedEntry = if sct.version = 0 then .panic else .err) := ⟨fun _ => rfl, rfl, rfl, rfl⟩
+
+/-- **ctutil.VerifySCT / LogInfo.VerifySCTSignature** (shape regenerated: `Gen.ctutilPolicyThenVerify`): passes **iff** the key
+passes the `NewSignatureVerifier` policy (so never for RSA < 2048, off-P-256 ECDSA without opt-in, DSA, Ed25519) **and**
+`VerifySCTSignature` passes for the leaf built from the chain. -/
+theorem ctutilVerifySCT_iff (P : Prims) (key : Key) (allow : Bool) (sct : SCT) (e : Entry) :
+    ctutilVerifySCT P key allow sct e = .ok ↔
+      key.ctorPanics = false ∧
+      ((key.kind = .rsa ∧ (2048 ≤ key.bits ∨ allow = true)) ∨ (key.kind = .ecdsa ∧ (key.isP256 = true ∨ allow = true))) ∧
+      verifySCT P key sct e = .ok := by
+  unfold ctutilVerifySCT
+  simp only [show Gen.ctutilPolicyThenVerify = true from rfl, Bool.not_true, Bool.false_eq_true, if_false]
+  have hp := (verifier_policy_outcome key allow).2
+  cases hv : newVerifierOutcome key allow with
+  | ok => simp only; rw [hv] at hp; have := hp.mp rfl; simp [this.1, this.2]
+  | err =>
+    simp only
+    constructor
+    · intro h; cases h
+    · rintro ⟨h1, h2, _⟩; rw [hv] at hp; have := hp.mpr ⟨h1, h2⟩; cases this
+  | panic =>
+    simp only
+    constructor
+    · intro h; cases h
+    · rintro ⟨h1, h2, _⟩; rw [hv] at hp; have := hp.mpr ⟨h1, h2⟩; cases this
+
+example : ctutilVerifySCT ⟨fun _ m => m, fun _ _ _ _ => true⟩ { kind := .ecdsa, isP256 := true } false ⟨0, [], 5, [], ⟨4, 3, [0x30, 6, 2, 1, 1, 2, 1, 1]⟩⟩ (.x509 [0xaa]) = .ok ∧
+    ctutilVerifySCT ⟨fun _ m => m, fun _ _ _ _ => true⟩ { kind := .ecdsa, isP256 := false } false ⟨0, [], 5, [], ⟨4, 3, [0x30, 6, 2, 1, 1, 2, 1, 1]⟩⟩ (.x509 [0xaa]) = .err ∧
+    ctutilVerifySCT ⟨fun _ m => m, fun _ _ _ _ => true⟩ { kind := .dsa } true ⟨0, [], 5, [], ⟨4, 2, [0x30, 6, 2, 1, 1, 2, 1, 1]⟩⟩ (.x509 [0xaa]) = .err := by decide
+
+/-- the remaining regenerated shape facts the model rests on -/
+theorem regenerated_shapes : Gen.sigPairFields = ["R", "S"] ∧ Gen.newVerifierKinds = ["rsa", "ecdsa"] ∧
+    Gen.signedJSONVerifiesBeforeParse = true ∧ Gen.sctVerifySerializesThenVerifies = true ∧
+    Gen.sthVerifySerializesThenVerifies = true ∧ Gen.ctutilPolicyThenVerify = true := ⟨rfl, rfl, rfl, rfl, rfl, rfl⟩
+
 /-! ### relative to an abstract scheme: what a log signs verifies, trailing octets are ignored -/
 
 /-- A signature an (EC)DSA log produces over the canonical bytes, DER-encoded, verifies — with any octets appended
 after the SEQUENCE.  (`Scheme.correct` is the only assumption; the size bound holds for every real key size.) -/
 theorem genuine_pair_verifies (S : Scheme) (digest : Nat → Bytes → Bytes) (k : S.Priv) (data rest : Bytes) (hc h : Nat)
     (a : Nat) (r s : Int) (hh : rfcHash hc = some h)
-    (hk : a = 2 ∧ (S.pub k).kind = .dsa ∨ a = 3 ∧ (S.pub k).kind = .ecdsa) (hn : (S.pub k).isNil = false)
+    (hk : a = 2 ∧ (S.pub k).kind = .dsa ∨ a = 3 ∧ (S.pub k).kind = .ecdsa) (hn : (S.pub k).primPanics = false)
     (hs : S.sign k h (digest h data) = .pair r s) (hr : 0 < r) (hs' : 0 < s)
     (hsz : (derInt r ++ derInt s ++ []).length < 2^31) :
     verifySignature (S.prims digest) (S.pub k) data ⟨hc, a, derSig r s ++ rest⟩ = .ok := by
@@ -297,7 +592,7 @@ theorem genuine_pair_verifies (S : Scheme) (digest : Nat → Bytes → Bytes) (k
 
 /-- An RSA log's signature over the canonical bytes verifies. -/
 theorem genuine_raw_verifies (S : Scheme) (digest : Nat → Bytes → Bytes) (k : S.Priv) (data sig : Bytes) (hc h : Nat)
-    (hh : rfcHash hc = some h) (hk : (S.pub k).kind = .rsa) (hn : (S.pub k).isNil = false)
+    (hh : rfcHash hc = some h) (hk : (S.pub k).kind = .rsa) (hn : (S.pub k).primPanics = false)
     (hs : S.sign k h (digest h data) = .raw sig) :
     verifySignature (S.prims digest) (S.pub k) data ⟨hc, 1, sig⟩ = .ok := by
   rw [verify_iff]
@@ -306,9 +601,13 @@ theorem genuine_raw_verifies (S : Scheme) (digest : Nat → Bytes → Bytes) (k 
   rw [hs] at this
   exact this
 
-/-- a scheme whose verification recomputes the signature (a keyed checksum): `correct` holds, so the hypotheses are satisfiable -/
-example : ∃ S : Scheme, ∃ k : S.Priv, (S.pub k).kind = .ecdsa ∧ S.sign k 5 [1] = .pair 8 2 :=
-  ⟨⟨Nat, fun n => { kind := .ecdsa, id := n }, fun n _ d => .pair (n + 1 : Nat) (d.length + 1 : Nat),
-      fun key _ d v => v == .pair (key.id + 1 : Nat) (d.length + 1 : Nat), by intro k h d; simp⟩, 7, rfl, by simp⟩
+/-- a scheme whose verification recomputes the signature (a keyed checksum): `correct` holds, so the hypotheses of
+`genuine_pair_verifies` are jointly satisfiable — the theorem is applied to it. -/
+def toyScheme : Scheme :=
+  ⟨Nat, fun n => { kind := .ecdsa, id := n }, fun n _ d => .pair (n + 1 : Nat) (d.length + 1 : Nat),
+    fun key _ d v => v == .pair (key.id + 1 : Nat) (d.length + 1 : Nat), by intro k h d; simp⟩
+
+example : verifySignature (toyScheme.prims fun _ m => m) (toyScheme.pub (7 : Nat)) [1] ⟨4, 3, derSig 8 2 ++ [0xee]⟩ = .ok :=
+  genuine_pair_verifies toyScheme (fun _ m => m) (7 : Nat) [1] [0xee] 4 5 3 8 2 (by decide) (Or.inr ⟨rfl, rfl⟩) (by decide) (by decide) (by decide) (by decide) (by decide)
 
 end C05
